@@ -309,3 +309,36 @@ func DecodeTCPFrame(b []byte) (*TCPFrame, error) {
 	f.TCPSumOK = Sum1071(pseudo(f.SrcIP, f.DstIP, ProtoTCP, len(t)), t) == 0
 	return f, nil
 }
+
+// ---------------------------------------------------------------------------------
+// link-layer framing
+
+// EthMinFrame is the minimum length of an Ethernet frame as a receiver sees it (64
+// bytes on the wire less the frame check sequence): stations pad shorter frames
+// behind the payload.
+const EthMinFrame = 60
+
+// Trailer returns the frame followed by link-layer trailer bytes, which are not part of
+// the IP datagram (its total length field stays as it is): n > 0 appends n bytes
+// (fill, fill+1, ...), n < 0 pads the frame with zero bytes to the Ethernet minimum of
+// 60 bytes as the sending station does (frames of 60 bytes or more are returned
+// unchanged), n == 0 returns the frame as it is.
+func Trailer(frame []byte, n int, fill byte) []byte {
+	if n < 0 {
+		if len(frame) >= EthMinFrame {
+			return frame
+		}
+		out := make([]byte, EthMinFrame)
+		copy(out, frame)
+		return out
+	}
+	if n == 0 {
+		return frame
+	}
+	out := make([]byte, len(frame)+n)
+	copy(out, frame)
+	for i := 0; i < n; i++ {
+		out[len(frame)+i] = fill + byte(i)
+	}
+	return out
+}
